@@ -9,7 +9,7 @@
      objR A b s        1/2 s^T A s - b^T s
      sym_mat, pos_def  A symmetric, x^T A x > 0 for x <> 0                                              *)
 From Coq Require Import ZArith List Bool Reals Lra Lia QArith.
-From PAV Require Import Base.Res Base.Check Base.NumOps Base.Sum Model.C05 Model.C05Chol Proofs.C05 Proofs.C05Chol.
+From PAV Require Import Base.Res Base.Check Base.NumOps Base.Sum Model.C05 Model.C05Chol Proofs.C05 Proofs.C05Chol Proofs.C05Cert Proofs.C05Sign.
 Import ListNotations.
 Local Open Scope R_scope.
 
@@ -56,6 +56,43 @@ Proof. exact positive_only_stationary. Qed.
 Theorem C05_positive_only_raises_only_inversion_exception : forall A b (eps : R) uses_p_initial fuel e,
   @reconstruction_positive_only ROps fuel A b eps uses_p_initial = Raise e -> e = InversionException.
 Proof. exact positive_only_raises_inversion_exception. Qed.
+
+(* ---- soundness of the executable certificate, independent of the solver model: what passing [kkt_ok] means for the vector the
+   IMPLEMENTATION returned, whichever way its loop was left (vocabulary, Proofs/C05Cert.v:  KKTa A b s tol  =  s >= 0, |gradient| <= tol
+   where s_i > 0, gradient >= -tol where s_i = 0) ---- *)
+Theorem C05_kkt_certificate_sound : forall A b d (tol : R), @kkt_ok ROps A b d tol = true -> KKTa A b d tol.
+Proof. exact kkt_ok_sound. Qed.
+Theorem C05_certified_output_is_minimiser : forall n A b d (tol : R) y,
+  wf n A b -> sym_mat n A -> pos_def n A -> 0 <= tol -> @kkt_ok ROps A b d tol = true ->
+  length y = n -> (forall i, (i < n)%nat -> 0 <= nth i y 0) ->
+  objR A b d - tol * (sumR y + sumR d) <= objR A b y.
+Proof. exact certified_output_is_minimiser. Qed.
+(* the early-exit failure (a zero entry whose gradient is below -tol) can never pass *)
+Theorem C05_certificate_rejects_negative_gradient : forall A b d (tol : R) i,
+  (i < length b)%nat -> nth i d 0 = 0 -> gradR A b d i < - tol -> @kkt_ok ROps A b d tol = false.
+Proof. exact certificate_rejects_negative_gradient. Qed.
+
+(* ---- the Lawson-Hanson sign lemma for the model's outer step (Proofs/C05Sign.v): from a state satisfying the active-set invariant
+   (Inv n A b P Pin s: s solves the sub-system on the passive list Pin = the True entries of P, s = 0 elsewhere), the parameter
+   idmax = argmax(w * ~P) admitted by the loop condition receives a POSITIVE value in the solve on Pin ++ [idmax] when A is symmetric
+   positive definite.  So an outer iteration that keeps the SIZE of the passive set is a genuine exchange (the entering parameter is
+   not the one thrown out by the first fix_constraint step), not a stalled iteration. ---- *)
+Theorem C05_entering_parameter_positive : forall n A b P Pin (s : list R) idmax (s1 : list R),
+  wf n A b -> sym_mat n A -> pos_def n A ->
+  Inv n A b P Pin s -> (idmax < n)%nat -> nth idmax P false = false ->
+  0 < nth idmax b 0 - dotR (rowR A idmax) s ->
+  Inv n A b (upd_set P idmax true) (Pin ++ [idmax]) s1 ->
+  0 < nth idmax s1 0.
+Proof. exact entering_parameter_positive. Qed.
+Theorem C05_outer_entering_value_positive : forall n A b (tau : R) P Pin (s x : list R),
+  wf n A b -> sym_mat n A -> pos_def n A -> 0 <= tau ->
+  Inv n A b P Pin s ->
+  let w := @residual ROps A b s in
+  @keep_going ROps P w tau = true ->
+  let idmax := @argmax ROps (map (fun wp : R * bool => mul ROps (fst wp) (if snd wp then @zero ROps else @one ROps)) (combine w P)) in
+  @solve_sub ROps A b (Pin ++ [idmax]) = Some x ->
+  0 < nth idmax (@assign ROps s (Pin ++ [idmax]) x) 0.
+Proof. exact outer_entering_value_positive. Qed.
 
 (* ---- KKT => minimiser of 1/2 s^T A s - b^T s over s >= 0 (up to tau * sum y), unique when tau = 0 ---- *)
 Theorem C05_kkt_implies_minimiser : forall n A b d (tau : R) y,
@@ -197,6 +234,30 @@ Proof.
   split; [reflexivity|]. intros i Hi. assert (Ei : i = 0%nat \/ i = 1%nat) by (cbn in Hi; lia).
   destruct Ei as [-> | ->]; unfold gradR, dotR, exA, exb, exd; cbn; repeat split; intros; lra.
 Qed.
+Example C05_ex_certificate_accepts : @kkt_ok ROps exA exb exd 0 = true.
+Proof. apply C05_kkt_certificate_accepts; [lra|exact C05_ex_kkt]. Qed.
+(* the vector a solver returns if it leaves before its first iteration: gradient -1 on the zero entry 0, rejected with tol = 1/2 *)
+Example C05_ex_early_exit_rejected : @kkt_ok ROps exA exb [0; 0] (/ 2) = false.
+Proof.
+  apply (C05_certificate_rejects_negative_gradient exA exb [0; 0] (/ 2) 0%nat); [cbn; lia|reflexivity|].
+  unfold gradR, dotR, exA, exb. cbn. lra.
+Qed.
+(* the hypotheses of C05_outer_entering_value_positive at the first outer step of the cold start on this system: idmax = 0, x = (1/2) *)
+Example C05_ex_entering_hyp :
+  Inv 2 exA exb [false; false] [] [0; 0] /\
+  let w := @residual ROps exA exb [0; 0] in
+  @keep_going ROps [false; false] w 0 = true /\
+  @solve_sub ROps exA exb ([] ++ [@argmax ROps (map (fun wp : R * bool => mul ROps (fst wp) (if snd wp then @zero ROps else @one ROps)) (combine w [false; false]))])
+    = Some [(1 - 0) / 2].
+Proof.
+  split.
+  - constructor; try reflexivity.
+    + constructor.
+    + intros i. cbn. split; [intros []|]. intros [Hi Hc]. destruct i as [|[|i]]; cbn in Hc; try discriminate; lia.
+    + intros i Hi _. destruct i as [|[|i]]; try reflexivity; lia.
+    + intros i [].
+  - cbv zeta. unfold exA, exb, residual, keep_going, solve_sub, solve. rexec. split; reflexivity.
+Qed.
 (* the model executed AT THE REALS on this system (symbolic evaluation, every comparison decided by lra): the hypothesis
    `fnnls ... = Ok (d, ExitCond, P)` of the KKT theorems is met, cold start and production warm start, and d = (1/2, 0) *)
 Example C05_ex_fnnls_cold_R :
@@ -304,3 +365,8 @@ Print Assumptions C05_cholupdate_rank_one.
 Print Assumptions C05_cholinsertlast_contract.
 Print Assumptions C05_choldeleteindexes_contract.
 Print Assumptions C05_descending_deletion_is_simultaneous.
+Print Assumptions C05_kkt_certificate_sound.
+Print Assumptions C05_certified_output_is_minimiser.
+Print Assumptions C05_certificate_rejects_negative_gradient.
+Print Assumptions C05_entering_parameter_positive.
+Print Assumptions C05_outer_entering_value_positive.
